@@ -48,7 +48,9 @@ def run(m):
 
 def expected_ok(kind, verdict, brief):
     if kind == 'benign':
-        return verdict in ('UNDECIDED', 'OK')
+        # undecided BECAUSE of the rule (not because the mutant lost an anchor or is not accepted by Verus, which would prove nothing)
+        trivial = any(('lost anchor' in b) or ('Verus rejected' in b) or ('not supported' in b) for b in brief)
+        return verdict == 'OK' or (verdict == 'UNDECIDED' and not trivial and any('exact-result clause' in b for b in brief))
     if verdict != 'VIOLATION':
         return False
     # a harmful change must be decided by a property-level clause or an internal obligation, not by an exact clause alone
